@@ -156,10 +156,17 @@ theorem fetchCore_pcs (app : App) (hsm : app.instrs.length < 250) (want : Nat) (
 
 /-! ### the decode unit -/
 
-theorem sl_of_get (app : App) (hsl : StraightLine app = true) (k : Nat) (i : Gen.Instr) (h : app.instrs[k]? = some i) :
-    slInstr i = true := by
-  simp only [StraightLine, List.all_eq_true] at hsl
+theorem sl_of_get (app : App) (hsl : StraightLineRet app = true) (k : Nat) (i : Gen.Instr) (h : app.instrs[k]? = some i) :
+    slrInstr i = true := by
+  simp only [StraightLineRet, List.all_eq_true] at hsl
   exact hsl i (List.mem_of_getElem? h)
+
+theorem slr_of_sl (app : App) (h : StraightLine app = true) : StraightLineRet app = true := by
+  simp only [StraightLine, StraightLineRet, List.all_eq_true] at h ⊢
+  intro i hi
+  have := h i hi
+  simp only [slInstr, slrInstr, Bool.and_eq_true] at this ⊢
+  exact this.1
 
 theorem instrAt_pcOf (app : App) (k : Nat) (hk : k < 2 ^ 20) (i : Gen.Instr) (h : app.instrs[k]? = some i) :
     instrAt app (pcOf k) = .ok i := by
@@ -168,14 +175,14 @@ theorem instrAt_pcOf (app : App) (k : Nat) (hk : k < 2 ^ 20) (i : Gen.Instr) (h 
   have : ¬ ((k : Int) < 0) := by omega
   simp only [this, if_false, Int.toNat_natCast, h, pure, Except.pure]
 
-theorem decodeLoop_front (app : App) (hsm : app.instrs.length < 250) (hsl : StraightLine app = true) (ctx : Model.Context)
+theorem decodeLoop_front (app : App) (hsm : app.instrs.length < 250) (hsl : StraightLineRet app = true) (ctx : Model.Context)
     (c : Int) (fu : FetchUnit) (k : Nat) :
     ∀ (n : Nat) (du du' : DecodeUnit) (inBus inBus' : BufferedBus Word) (outBus outBus' : BufferedBus Runner),
     Chain app k outBus.inside → k + outBus.inside.length ≤ app.instrs.length →
     Pcs app (k + outBus.inside.length) fu inBus.inside 0 →
     decodeLoop app ctx c n du inBus outBus = .ok (du', inBus', outBus') →
     Chain app k outBus'.inside ∧ k + outBus'.inside.length ≤ app.instrs.length ∧
-    Pcs app (k + outBus'.inside.length) fu inBus'.inside 0 ∧ du' = du ∧
+    Pcs app (k + outBus'.inside.length) fu inBus'.inside 0 ∧ du'.pendingBranchResolution = du.pendingBranchResolution ∧
     inBus'.bufferLength = inBus.bufferLength := by
   intro n
   induction n with
@@ -224,12 +231,10 @@ theorem decodeLoop_front (app : App) (hsm : app.instrs.length < 250) (hsl : Stra
         obtain ⟨i, hi⟩ := get_lt app.instrs h0 (by omega)
         rw [hp, instrAt_pcOf app h0 hh i hi] at hr
         have hsli := sl_of_get app hsl h0 i hi
-        simp only [slInstr, Bool.and_eq_true, Bool.not_eq_true', Gen.InstructionType.IsBranch, Bool.or_eq_false_iff,
-          beq_eq_false_iff_ne] at hsli
-        obtain ⟨⟨_, hub, _⟩, hnr⟩ := hsli
-        have hnr' : (i.instructionType == Gen.InstructionType.Ret) = false := by simpa using hnr
-        simp only [hub, Bool.false_eq_true, if_false, hnr'] at hr
-        have := ih du du' _ inBus' _ outBus'
+        simp only [slrInstr, Bool.and_eq_true, Bool.not_eq_true', Gen.InstructionType.IsBranch, Bool.or_eq_false_iff] at hsli
+        obtain ⟨_, hub, _⟩ := hsli
+        simp only [hub, Bool.false_eq_true, if_false] at hr
+        have := ih _ du' _ inBus' _ outBus'
           (by rw [inside_add, chain_append]; exact ⟨h1, ⟨⟨by rw [← hw], by rw [← hw]; exact hi⟩, trivial⟩⟩)
           (by rw [inside_add]; simp only [List.length_append, List.length_cons, List.length_nil]; omega)
           (by rw [inside_add]
@@ -241,31 +246,39 @@ theorem decodeLoop_front (app : App) (hsm : app.instrs.length < 250) (hsl : Stra
               · rw [hin']; intro hc; have := a6 hc; omega
               · rw [hin']; intro hc; have := a7 hc; omega)
           hr
-        exact this
+        refine ⟨this.1, this.2.1, this.2.2.1, ?_, this.2.2.2.2⟩
+        rw [this.2.2.2.1]; split <;> rfl
 
 /-! ### the control unit -/
 
-/-- the runners `rs` were issued in this order in cycle `c`, each free of hazards against the scoreboards at its turn -/
+/-- the runners `rs` were issued in this order in cycle `c`, each free of hazards against the scoreboards at its turn; a `ret`
+only onto an empty execute bus, and nothing behind it -/
 inductive Issued (c : Int) : List Runner → Model.Context × BufferedBus Runner → Model.Context × BufferedBus Runner → Prop
   | nil (x) : Issued c [] x x
   | cons (r rs ctx bus y) : isDataHazard3 ctx r.instr = false →
+      ((r.instr.instructionType == Gen.InstructionType.Ret) = true → bus.isEmpty = true ∧ rs = []) →
       Issued c rs (addPendingRegisters ctx r.instr, bus.add r c) y → Issued c (r :: rs) (ctx, bus) y
 
 theorem handleRunner_cases (ctx : Model.Context) (bus : BufferedBus Runner) (c p : Int) (r : Runner) :
     (handleRunner ctx bus c p r = ((false, true), ctx, bus)) ∨
     (isDataHazard3 ctx r.instr = false ∧
+      ((r.instr.instructionType == Gen.InstructionType.Ret) = true → bus.isEmpty = true) ∧
       handleRunner ctx bus c p r = ((true, r.instr.instructionType == Gen.InstructionType.Ret), addPendingRegisters ctx r.instr, bus.add r c)) := by
   unfold handleRunner
   simp only
   split
   · left; rfl
-  · split
+  · rename_i h1
+    split
     · left; rfl
     · split
       · left; rfl
       · rename_i h3
         right
-        exact ⟨by simpa using h3, rfl⟩
+        refine ⟨by simpa using h3, ?_, rfl⟩
+        intro hret
+        simp only [hret, Bool.true_and, Bool.not_eq_true', Bool.not_eq_false'] at h1
+        simpa using h1
 
 theorem cuBusLoop_spec (c : Int) : ∀ (n : Nat) (st : CuSt), st.pendings.items = [] →
     ∃ pushed, Issued c pushed (st.ctx, st.outBus) ((cuBusLoop c n st).ctx, (cuBusLoop c n st).outBus) ∧
@@ -287,20 +300,21 @@ theorem cuBusLoop_spec (c : Int) : ∀ (n : Nat) (st : CuSt), st.pendings.items 
         simp only [get_some _ r q hq]
         have hin : st.inBus.inside = r :: ({ st.inBus with queue := q } : BufferedBus Runner).inside := by
           simp only [BufferedBus.inside, hq, List.cons_append]
-        rcases handleRunner_cases st.ctx st.outBus c st.pushed r with hh | ⟨hz, hh⟩
+        rcases handleRunner_cases st.ctx st.outBus c st.pushed r with hh | ⟨hz, hre, hh⟩
         · simp only [hh, Bool.false_eq_true, if_false, if_true]
           refine ⟨[], Issued.nil _, ?_, ?_⟩
           · simp only [Queue.push, hp, List.nil_append, List.map_cons, List.map_nil, hin, List.cons_append]
           · simp only [Queue.push, hp, List.nil_append, List.length_cons, List.length_nil]; omega
         · simp only [hh, if_true]
           split
-          · refine ⟨[r], Issued.cons r [] _ _ _ hz (Issued.nil _), ?_, ?_⟩
+          · refine ⟨[r], Issued.cons r [] _ _ _ hz (fun h => ⟨hre h, rfl⟩) (Issued.nil _), ?_, ?_⟩
             · simp only [hp, List.map_nil, List.append_nil, hin, List.cons_append, List.nil_append]
             · simp only [hp, List.length_nil]; omega
-          · obtain ⟨pushed, i1, i2, i3⟩ := ih
+          · rename_i hnr
+            obtain ⟨pushed, i1, i2, i3⟩ := ih
               { st with inBus := { st.inBus with queue := q }, ctx := addPendingRegisters st.ctx r.instr,
                         outBus := st.outBus.add r c, remaining := st.remaining - 1, pushed := st.pushed + 1 } hp
-            refine ⟨r :: pushed, Issued.cons r pushed _ _ _ hz i1, ?_, i3⟩
+            refine ⟨r :: pushed, Issued.cons r pushed _ _ _ hz (fun h => absurd h hnr) i1, ?_, i3⟩
             rw [hin, List.cons_append, List.cons_append, i2]
 
 /-- everything `controlCycle` leaves alone -/
@@ -334,7 +348,7 @@ theorem cuLoops_spec (c : Int) (st0 : CuSt) : ∀ (items : List (Nat × Runner))
     exact ⟨pushed, i1, by simpa using i2, i3⟩
   | [(hd, r)], hit, _ => by
     simp only [cuLoops, cuPendingLoop]
-    rcases handleRunner_cases st0.ctx st0.outBus c st0.pushed r with hh | ⟨hz, hh⟩
+    rcases handleRunner_cases st0.ctx st0.outBus c st0.pushed r with hh | ⟨hz, hre, hh⟩
     · simp only [hh, Bool.false_eq_true, if_false, if_true]
       exact ⟨[], Issued.nil _, by simp [hit], by simp [hit]⟩
     · simp only [hh, if_true]
@@ -342,14 +356,15 @@ theorem cuLoops_spec (c : Int) (st0 : CuSt) : ∀ (items : List (Nat × Runner))
         simp only [Queue.remove, hit, List.filter_cons, bne_self_eq_false, Bool.false_eq_true, if_false, List.filter_nil]
       split
       · simp only [if_true]
-        exact ⟨[r], Issued.cons r [] _ _ _ hz (Issued.nil _), by simp [hrem], by simp [hrem]⟩
-      · simp only [cuPendingLoop, Bool.false_eq_true, if_false]
+        exact ⟨[r], Issued.cons r [] _ _ _ hz (fun h => ⟨hre h, rfl⟩) (Issued.nil _), by simp [hrem], by simp [hrem]⟩
+      · rename_i hnr
+        simp only [cuPendingLoop, Bool.false_eq_true, if_false]
         obtain ⟨pushed, i1, i2, i3⟩ := cuBusLoop_spec c
           (({ st0 with ctx := addPendingRegisters st0.ctx r.instr, outBus := st0.outBus.add r c,
                        pendings := st0.pendings.remove hd, remaining := st0.remaining - 1, pushed := st0.pushed + 1 } : CuSt).inBus.pendingRead.toNat + 1)
           { st0 with ctx := addPendingRegisters st0.ctx r.instr, outBus := st0.outBus.add r c,
                      pendings := st0.pendings.remove hd, remaining := st0.remaining - 1, pushed := st0.pushed + 1 } hrem
-        exact ⟨r :: pushed, Issued.cons r pushed _ _ _ hz i1,
+        exact ⟨r :: pushed, Issued.cons r pushed _ _ _ hz (fun h => absurd h hnr) i1,
           by simp only [List.map_cons, List.map_nil, List.cons_append, List.nil_append] at i2 ⊢; rw [i2], i3⟩
   | _ :: _ :: _, _, hl => by simp only [List.length_cons] at hl; omega
 
